@@ -161,6 +161,18 @@ pub fn low_buffer() -> *mut u8 {
     p
 }
 
+#[repr(C, align(16))]
+pub struct Aligned16(pub [u8; 16]);
+
+/// a `fmt::Write` that only counts
+pub struct Sink(pub usize);
+impl std::fmt::Write for Sink {
+    fn write_str(&mut self, s: &str) -> std::fmt::Result {
+        self.0 += s.len();
+        Ok(())
+    }
+}
+
 /// Run `f`, mapping an unwinding panic to `Err(())`.
 pub fn guarded<T>(f: impl FnOnce() -> T) -> Result<T, ()> {
     catch_unwind(AssertUnwindSafe(f)).map_err(|_| ())
@@ -277,6 +289,16 @@ where
     I: Iterator,
     K: PartialEq,
 {
+    probe_panicked_opt(mk, key, m, true)
+}
+
+/// `strict_reuse`: the iterator must keep panicking when used again after its panic (holds for the header kinds whose
+/// `payload_len` asserts `size >= 8`; the wrapping arithmetic of the test-only `DummyTestHeader` gives no such guarantee)
+pub fn probe_panicked_opt<I, K>(mk: impl Fn() -> I, key: impl Fn(I::Item) -> K + Copy, m: usize, strict_reuse: bool) -> Option<String>
+where
+    I: Iterator,
+    K: PartialEq,
+{
     if m > 512 {
         return None;
     }
@@ -291,6 +313,13 @@ where
         }
         if guarded(|| it.next()).is_ok() {
             return Some("replay-end".into());
+        }
+        // the SAME iterator used again after its panic was caught: it must keep refusing (a controlled panic again) - it
+        // must not resume somewhere, report a clean end, or look at memory the malformed element pointed to
+        for _ in 0..3 {
+            if strict_reuse && guarded(|| it.next()).is_ok() {
+                return Some("resumed-after-panic".into());
+            }
         }
     }
     for k in 0..=m + 3 {
